@@ -1443,6 +1443,9 @@ def structure_module(cfg):
             exports.append(("table", "table", 0))
         for i, gl in enumerate(globs):
             exports.append(("glob%d" % i, "global", n_ig + i))
+    if ex not in ("all", "twice", "names") and mem is not None and (cfg["mem"] in ("1-1", "2-2") or cfg["data"] in ("page", "two-pages", "empty")):
+        # the page count a `(memory (data ...))` abbreviation gives is only observable through the exported memory
+        exports.append(("memory", "memory", 0))
     if ex == "twice":
         exports.append(("again", "func", n_if))
     if ex == "names":
